@@ -327,6 +327,66 @@ def all_solvers(ctx):
                         if st != 0 or not np.allclose(np.ravel(x), np.ravel(x0), rtol=1e-9, atol=1e-12):
                             sub.fail(name + '/converged-guess', 'x0 meets the criterion but status=%r, |x-x0|=%.3g'
                                      % (st, np.linalg.norm(np.ravel(x) - np.ravel(x0))), case)
+                    # the optional outputs are independent: the same call with only a callback, only a history list,
+                    # or neither returns the same (x, status), invokes the callback as often and fills the same history
+                    if variant == 'random-x0' and st >= 0 and np.all(np.isfinite(x)):
+                        for which in ('callback-only', 'residuals-only', 'neither'):
+                            res2, cbs2 = [], []
+                            args = dict(x0=x0.copy(), tol=tol, maxiter=mi, M=Md)
+                            if which == 'callback-only':
+                                args['callback'] = lambda xk: cbs2.append(np.array(xk, copy=True))
+                            if which == 'residuals-only':
+                                args['residuals'] = res2
+                            args.update(kw)
+                            try:
+                                with warnings.catch_warnings():
+                                    warnings.simplefilter('ignore')
+                                    x2, st2 = fn(wrap(Ad, fmt), bb, **args)
+                            except Exception as e:   # noqa
+                                sub.fail(name + '/' + which + '/raises', repr(e), dict(case, outputs=which))
+                                continue
+                            ctx.count('outputs:' + which)
+                            if st2 != st or not np.array_equal(np.ravel(x2), np.ravel(x)):
+                                sub.fail(name + '/' + which + '/result-differs', 'status %r vs %r, |dx| = %.3g' % (st2, st, np.linalg.norm(np.ravel(x2) - np.ravel(x))),
+                                         dict(case, outputs=which))
+                            if which == 'callback-only' and (len(cbs2) != len(cbs) or any(not np.array_equal(a, c) for a, c in zip(cbs2, cbs))):
+                                sub.fail(name + '/callback-only/callbacks-differ', '%d callbacks without a history list, %d with one' % (len(cbs2), len(cbs)),
+                                         dict(case, outputs=which))
+                            if which == 'residuals-only' and [float(v) for v in res2] != [float(v) for v in res]:
+                                sub.fail(name + '/residuals-only/history-differs', 'history %s without a callback, %s with one' % (res2[:4], res[:4]),
+                                         dict(case, outputs=which))
+    # fixed ill-conditioned probe (independent of the run seed): with cond(A) = 1e8 and tol = 1e-12 the recursively
+    # updated residual drifts away from b - A x; a solver that reports status 0 must still meet its criterion when the
+    # residual is recomputed (factor 10 slack), and the last history entry must belong to the returned x
+    prng = np.random.default_rng(0)
+    nprobe = 40
+    dgl = np.logspace(0, 8, nprobe)
+    Qp, _ = np.linalg.qr(prng.standard_normal((nprobe, nprobe)))
+    Ap_ = (Qp * dgl) @ Qp.T
+    Ap_ = 0.5 * (Ap_ + Ap_.T)
+    bp = prng.standard_normal(nprobe)
+    for name in ('cg', 'cr', 'steepest_descent', 'minimal_residual', 'cgnr', 'cgne', 'bicgstab'):
+        fn = getattr(krylov, name)
+        Asys = Ap_ if name not in ('cgnr', 'cgne') else (Qp * np.sqrt(dgl)) @ Qp.T
+        case = dict(solver=name, probe='ill-conditioned cond=1e8 n=40 default_rng(0)', tol=1e-12, maxiter=1000)
+        res = []
+        try:
+            with warnings.catch_warnings():
+                warnings.simplefilter('ignore')
+                x, st = fn(Asys, bp, tol=1e-12, maxiter=1000, residuals=res)
+        except Exception as e:   # noqa
+            ctx.fail(name + '/ill-conditioned/raises', repr(e), case)
+            continue
+        ctx.case((name, 'ill-conditioned-probe'), True)
+        ctx.count('probe:ill-conditioned')
+        if not np.all(np.isfinite(x)):
+            continue
+        true = np.linalg.norm(bp - Asys @ x)
+        nb = np.linalg.norm(bp)
+        if st == 0 and not true < 10 * 1e-12 * nb:
+            ctx.fail(name + '/ill-conditioned/status0-criterion-not-met', 'status 0 but recomputed |b - A x| / |b| = %.3g for tol = 1e-12' % (true / nb), case)
+        if res and not (0.1 * true <= res[-1] <= 10 * true) and true > 1e-13 * nb:
+            ctx.fail(name + '/ill-conditioned/last-history-entry', 'residuals[-1] = %.3g but recomputed %.3g' % (res[-1], true), case)
     # corpus: normal-equation solvers on a LinearOperator (F13)
     for name in ('cgne', 'cgnr'):
         Ad, b = systems(ctx.sub('f13'), 3, False, True)
